@@ -1,5 +1,176 @@
 import ScrapliProps.C01Lemmas
+/-
+  C01 — a command's response is exactly what the device printed for that command.
+  Property theorems only (helper lemmas and the definitions `Quiet`, `NoEarly`, `PromptOK`,
+  `LineDev`, `Fits`, `GoodCmd`, `runCmds`, `expected`: C01Lemmas.lean).
+
+  Quantifiers: every search depth `d`, every output (any length: below, at, far beyond the
+  window), every prompt and trailing blanks satisfying the stated pattern conditions, EVERY
+  segmentation of the byte stream into reads (`cs` ranges over all piece lists, `cuts` over all
+  read-size lists; empty pieces allowed), every list of commands.
+  The regular-expression operations are parameters: `hS` says the prompt pattern is line-local
+  (MULTILINE `^…$`), which the check validates against CPython for every driver pattern.
+-/
 namespace Scrapli.Chan
-open Scrapli.Gen.Chan
+open Scrapli Scrapli.Gen.Chan
+
+/-- the ANSI pattern in the source is the one the model's scanner mirrors (regenerated each run) -/
 theorem ansi_pattern_pinned : ansiPatternIsPinned = true := by decide
+
+/-- the window never invents a prompt: every line the prompt search looks at is a contiguous
+    segment of a line the device really printed -/
+theorem window_lines_are_segments (d : Nat) (b : Bytes) :
+    ∀ ℓ ∈ splitNL (processReadBuf d b), ∃ L ∈ splitNL b, ℓ <:+: L := by
+  intro ℓ hℓ
+  obtain ⟨a, c, habc⟩ := processReadBuf_infix d b
+  -- lines of an infix are segments of lines of the whole: reuse the Quiet machinery with P := (· == ℓ)
+  by_cases h : ∃ L ∈ splitNL b, ℓ <:+: L
+  · exact h
+  · exfalso
+    have hq : Quiet (fun s => s == ℓ) b := by
+      intro L hL s hs
+      by_cases e : s = ℓ
+      · subst e; exact absurd ⟨L, hL, hs⟩ h
+      · simpa using e
+    have := quiet_infix hq (processReadBuf_infix d b) ℓ hℓ ℓ (List.infix_refl ℓ)
+    simp at this
+
+/-- **prompt read, exact for every segmentation**: see `readLoop_prompt`.  From an empty buffer,
+    over any piece list concatenating to `body ++ NL :: p ++ t`, `_read_until_prompt` returns
+    `body ++ NL :: p ++ t'` (`t'` a prefix of the trailing blanks) at the FIRST piece boundary where
+    the prompt is complete — never earlier (output crossing the window cannot fake a prompt), never
+    later (a complete prompt is always inside the window), consuming nothing beyond. -/
+theorem readUntilPrompt_exact {P : Bytes → Bool} (pat : Pat) (d : Nat) (body p t : Bytes)
+    (hS : ∀ w, pat.search w = (splitNL w).any P)
+    (hb : Quiet P body) (he : NoEarly P p) (hok : PromptOK P p t)
+    (hnlp : NL ∉ p) (hnlt : NL ∉ t) (hp0 : p ≠ []) (hd : (p ++ t).length < d)
+    (cs : List Bytes) (hcs : cs.flatten = body ++ NL :: p ++ t) :
+    ∃ k t', t' <+: t ∧ (cs.take k).flatten = body ++ NL :: p ++ t' ∧
+      readLoop (promptSeen pat d) [] cs = some (body ++ NL :: p ++ t', k) ∧
+      ∀ j, j < k → ((cs.take j).flatten).length < (body ++ NL :: p).length := by
+  have := readLoop_prompt pat d body p t hS hb he hok hnlp hnlt hp0 hd cs [] (by simpa using hcs)
+    (by simp; omega)
+  simpa using this
+
+/-- **echo read, exact for every segmentation** (strict matching): returns at the first piece
+    boundary where every visible byte of the input has been echoed; what stays unread is invisible -/
+theorem readUntilInput_exact (input stream : Bytes) (hI : squish input ≠ [])
+    (hF : squishBuf stream = squish input) (cs : List Bytes) (hcs : cs.flatten = stream) :
+    ∃ k, readLoop (inputSeen false input) [] cs = some ((cs.take k).flatten, k) ∧
+      squishBuf (cs.drop k).flatten = [] ∧
+      ∀ j, j < k → squishBuf (cs.take j).flatten ≠ squish input := by
+  have hne : squishBuf ([] : Bytes) ≠ squish input := by
+    intro h; exact hI (by rw [← h]; rfl)
+  obtain ⟨k, h1, _, h3, h4⟩ := readLoop_echo input stream hF cs [] (by simpa using hcs) hne
+  exact ⟨k, by simpa using h1, h3, by simpa using h4⟩
+
+/-- **one command, framed exactly**: `sendInput_frames` (C01Lemmas) restated. -/
+theorem send_input_exact {P : Bytes → Bool} {cfg : Cfg} {dv : LineDev} (hf : Fits P cfg dv)
+    (input : Bytes) (hg : GoodCmd P dv input) (stripPrompt : Bool)
+    (w : Wire) (hres : ∀ x ∈ w.avail, isHws x = true) :
+    ∃ raw w', sendInput cfg dv.onWrite input stripPrompt false false (w, []) =
+        some ((raw, expected cfg dv stripPrompt input), (w', [])) ∧
+      (∃ L t', (∀ x ∈ L, isWs x = true) ∧ t' <+: dv.trail ∧
+        raw = L ++ dv.rbody input ++ NL :: dv.prompt ++ t') ∧
+      w'.writes = w.writes ++ [input, [NL]] ∧ (∀ x ∈ w'.avail, isHws x = true) := by
+  obtain ⟨L, t', t'', cuts', hLws, hLnl, htt, hsend⟩ := sendInput_frames hf input hg stripPrompt w hres
+  obtain ⟨ht', ht''⟩ := suffix_hws htt hf.trail_hws
+  refine ⟨_, { avail := t'', cuts := cuts', writes := w.writes ++ [input, [NL]] }, ?_,
+    ⟨L, t', hLws, ⟨t'', htt⟩, rfl⟩, rfl, ht''⟩
+  rw [hsend]
+  unfold expected
+  rw [processOutput_indep cfg dv input L t' stripPrompt hLws hLnl ht' hf.prompt_ne hf.prompt_nl]
+
+/-- **C01, sessions**: for every list of commands inside the quantifier and every segmentation
+    of every read, each command returns exactly its own expected result — nothing of an earlier
+    or later command — the device is sent exactly each input and one return, and the session is in
+    step afterwards (only trailing blanks unread). -/
+theorem session_exact {P : Bytes → Bool} {cfg : Cfg} {dv : LineDev} (hf : Fits P cfg dv)
+    (stripPrompt : Bool) (inputs : List Bytes) (hg : ∀ i ∈ inputs, GoodCmd P dv i)
+    (w : Wire) (hw : ∀ x ∈ w.avail, isHws x = true) :
+    ∃ rs w', runCmds cfg dv.onWrite stripPrompt inputs (w, []) = some (rs, (w', [])) ∧
+      rs.map (·.2) = inputs.map (expected cfg dv stripPrompt) ∧
+      w'.writes = w.writes ++ (inputs.map (fun i => [i, [NL]])).flatten ∧
+      (∀ x ∈ w'.avail, isHws x = true) :=
+  session_in_step hf stripPrompt inputs hg w hw
+
+/-! ### non-vacuity: a concrete pattern, device and commands inside the quantifier -/
+
+def exPrompt : Bytes := [114, 49, 35]                     -- "r1#"
+def exP : Bytes → Bool := fun s => s == exPrompt || s == exPrompt ++ [32]
+def exPat : Pat := { search := fun x => (splitNL x).any exP, first := fun _ => none, sub := id }
+def exCfg : Cfg := { prompt := exPat, compile := fun _ => exPat, depth := 8, ret := [NL], rough := false }
+/-- output "line 1\nl2 longer than d": longer than the window (8) -/
+def exOut : Bytes := [108, 105, 110, 101, 32, 49, 10, 108, 50, 32, 108, 111, 110, 103, 101, 114, 32, 116, 104, 97, 110, 32, 100]
+def exDev : LineDev := { out := fun _ => exOut, prompt := exPrompt, trail := [32] }
+
+theorem exP_len {s : Bytes} (h : exP s = true) : 3 ≤ s.length := by
+  simp only [exP, Bool.or_eq_true, beq_iff_eq] at h
+  rcases h with e | e <;> subst e <;> decide
+
+theorem exFits : Fits exP exCfg exDev where
+  search_lines := fun _ => rfl
+  strict := rfl
+  ret := rfl
+  blank := by
+    intro s hs
+    rw [Bool.eq_false_iff]; intro h
+    simp only [exP, Bool.or_eq_true, beq_iff_eq] at h
+    rcases h with e | e <;> subst e <;> revert hs <;> decide
+  noEarly := by
+    intro q hq hne s hs
+    rw [Bool.eq_false_iff]; intro h
+    have h0 := exP_len h
+    have h1 := hs.length_le
+    have h2 := hq.length_le
+    have h3 : exDev.prompt.length = 3 := rfl
+    exact hne (hq.eq_of_length (by omega))
+  promptOK := by
+    intro t' ht'
+    have : t' = [] ∨ t' = [32] := by
+      rcases t' with _ | ⟨a, _ | ⟨b, r⟩⟩
+      · left; rfl
+      · right
+        obtain ⟨r, hr⟩ := ht'
+        simp [exDev] at hr
+        simp [hr.1]
+      · exfalso; have := ht'.length_le; simp [exDev] at this
+    rcases this with e | e <;> subst e <;> decide
+  prompt_ne := by decide
+  prompt_nl := by decide
+  prompt_plain := ⟨by decide, by decide⟩
+  trail_hws := by decide
+  fits_window := by decide
+
+def exCmd : Bytes := [115, 104, 111, 119, 32, 32]         -- "show  " (trailing blanks)
+
+theorem exGood : GoodCmd exP exDev exCmd where
+  visible := by decide
+  no_nl := by decide
+  no_bs := by decide
+  plain := ⟨by decide, by decide⟩
+  out_plain := ⟨by decide, by decide⟩
+  out_quiet := by
+    intro L hL s hs
+    rw [Bool.eq_false_iff]; intro h
+    simp only [exP, Bool.or_eq_true, beq_iff_eq] at h
+    have hmem : (35 : UInt8) ∈ L := by
+      have : (35 : UInt8) ∈ s := by rcases h with e | e <;> subst e <;> decide
+      exact hs.subset this
+    have hL' : L = [108, 105, 110, 101, 32, 49] ∨ L = [108, 50, 32, 108, 111, 110, 103, 101, 114, 32, 116, 104, 97, 110, 32, 100] := by
+      have : splitNL (exDev.out exCmd) = [[108, 105, 110, 101, 32, 49], [108, 50, 32, 108, 111, 110, 103, 101, 114, 32, 116, 104, 97, 110, 32, 100]] := by decide
+      rw [this] at hL
+      simpa using hL
+    rcases hL' with e | e <;> subst e <;> revert hmem <;> decide
+
+/-- the session theorem applies to a concrete non-trivial instance: three commands with output
+    longer than the search window, residue of one blank, arbitrary cuts -/
+example (cuts : List Nat) :
+    ∃ rs w', runCmds exCfg exDev.onWrite true [exCmd, exCmd, exCmd] ({ avail := [32], cuts := cuts }, []) =
+        some (rs, (w', [])) ∧
+      rs.map (·.2) = [exCmd, exCmd, exCmd].map (expected exCfg exDev true) :=
+  let ⟨rs, w', h1, h2, _, _⟩ := session_exact exFits true [exCmd, exCmd, exCmd]
+    (by intro i hi; simp at hi; subst hi; exact exGood) { avail := [32], cuts := cuts } (by intro x hx; simp at hx; subst hx; decide)
+  ⟨rs, w', h1, h2⟩
+
 end Scrapli.Chan
